@@ -301,10 +301,13 @@ pub fn fill_members(rng: &mut Rng, cfg: &GenCfg, n: usize, scale: usize, mapped:
 }
 
 /// A mapping set drawn from the domain described by `cfg`. Small most of the time (0..=max_classes classes,
-/// 0..=max members), occasionally four times bigger.
+/// 0..=max members), occasionally four times bigger, rarely 16 times wider at one level.
 pub fn gen_maps(rng: &mut Rng, cfg: &GenCfg) -> Maps {
     let n = cfg.namespaces.unwrap_or_else(|| rng.usize_in(2, 4));
     let scale = if rng.chance(cfg.big.0, cfg.big.1) { 4 } else { 1 };
+    // 1 set in 120 (never when `big` is switched off) is WIDE at one level: 16 times the classes, or 16 times the members
+    // per class — sizes at which an implementation may change strategy (sort, hash, short cuts for equal key sets)
+    let (scale, mscale) = if cfg.big.0 > 0 && rng.chance(1, 120) { if rng.bool() { (16, 1) } else { (1, 16) } } else { (scale, scale) };
     let mut m = Maps { namespaces: namespaces(rng, cfg, n), classes: BTreeMap::new() };
     let want = rng.usize_in(0, cfg.max_classes * scale);
     let srcs = class_sources(rng, cfg, want);
@@ -319,7 +322,7 @@ pub fn gen_maps(rng: &mut Rng, cfg: &GenCfg) -> Maps {
             });
         }
         let mut c = Class { names, comment: maybe_comment(rng, cfg), fields: BTreeMap::new(), methods: BTreeMap::new() };
-        fill_members(rng, cfg, n, scale, &srcs, &mut c);
+        fill_members(rng, cfg, n, mscale, &srcs, &mut c);
         m.classes.insert(src.clone(), c);
     }
     debug_assert!(m.check().is_empty(), "{:?}", m.check());
